@@ -51,7 +51,7 @@ Proof.
     rewrite cnode_comment_node. destruct (slice text r0 r1) as [t|p]; cbn [bind]; [|reflexivity].
     rewrite pos_arith. destruct (comment_node in_range src (off + r0) t) as [whole|p]; cbn [bind]; [|reflexivity].
     unfold gen_handle, md_set. cbn [md_caps md_node fst].
-    destruct (handle re_match l cr _) as [[rep|]|p]; reflexivity.
+    destruct (handle re_match l src cr _) as [[rep|]|p]; reflexivity.
   - (* fast path *)
     destruct idx as [res|]; cbn [option_map]; [|reflexivity].
     rewrite !index_firstn2 by lia.
@@ -61,6 +61,6 @@ Proof.
     rewrite cnode_comment_node. destruct (slice text r0 r1) as [t|p]; cbn [bind]; [|reflexivity].
     rewrite pos_arith. destruct (comment_node in_range src (off + r0) t) as [whole|p]; cbn [bind]; [|reflexivity].
     unfold gen_handle, md_set. cbn [md_caps md_node fst md_zero].
-    destruct (handle re_match l cr _) as [[rep|]|p]; reflexivity.
+    destruct (handle re_match l src cr _) as [[rep|]|p]; reflexivity.
 Qed.
 End Inst.
